@@ -19,11 +19,13 @@
 (*                  guards)                                                           *)
 (*   EquivExported  the equivocated opening verifies under the exported public key    *)
 (*                                                                                    *)
-(* Hash commitment (hashcom), encryption-based (indcpacom) and the key derivation     *)
-(* from a transcript are injective functions of their arguments: HCom / KeyOf below;  *)
-(* for those "opens iff nothing changed" is immediate and the content is in the       *)
-(* trace specification (CommitTrace), which decides real runs with these definitions. *)
-EXTENDS FieldQ, TLC, Json
+(*   ElGamalBinding the encryption-based commitment (indcpacom over ElGamal, exact in  *)
+(*                  the same group) opens to exactly one (message, nonce)             *)
+(* Hash commitment (hashcom) and the key derivation from a transcript are injective   *)
+(* functions of their arguments: HCom / KeyOf in CommitDefs; for those "opens iff     *)
+(* nothing changed" is immediate and the content is in the trace specification        *)
+(* (CommitTrace), which decides real runs with these definitions.                     *)
+EXTENDS CommitDefs, TLC, Json
 
 CONSTANTS MaxSteps,      \* homomorphic steps of a programme
           Lams,          \* trapdoors explored
@@ -31,28 +33,6 @@ CONSTANTS MaxSteps,      \* homomorphic steps of a programme
           Export         \* print programmes as JSON
 
 --------------------------------------------------------------------------------
-ValidKey(k) == k.g # 0 /\ k.h # 0 /\ k.g # k.h
-PubOf(g, lam) == [g |-> g, h |-> Mul(lam, g)]
-ValidTrapdoor(g, lam) == g # 0 /\ lam # 0 /\ lam # 1
-
-Com(k, m, w) == Add(Mul(k.g, m), Mul(k.h, w))
-ComTrapdoor(g, lam, m, w) == Mul(g, Add(m, Mul(lam, w)))          \* TrapdoorKey.CommitWithWitness
-Opens(k, c, m, w) == c = Com(k, m, w)
-EquivW(lam, m, w, m2) == Add(w, Mul(Inv(lam), Sub(m, m2)))        \* TrapdoorKey.Equivocate
-
-\* commitments.Homomorphic on <<c, m, w>> triples
-TOp(k, a, b) == [c |-> Add(a.c, b.c), m |-> Add(a.m, b.m), w |-> Add(a.w, b.w)]
-TInv(k, a) == [c |-> Neg(a.c), m |-> Neg(a.m), w |-> Neg(a.w)]
-TScal(k, a, s) == [c |-> Mul(s, a.c), m |-> Mul(s, a.m), w |-> Mul(s, a.w)]
-TReRand(k, a, r) == [c |-> Add(a.c, Mul(k.h, r)), m |-> a.m, w |-> Add(a.w, r)]
-TShift(k, a, d) == [c |-> Add(a.c, Mul(k.g, d)), m |-> Add(a.m, d), w |-> a.w]
-TCommit(k, m, w) == [c |-> Com(k, m, w), m |-> m, w |-> w]
-
-\* injective abstractions
-HCom(k, m, w) == <<k, m, w>>          \* hashcom: BLAKE2b keyed with k over m || w, w of fixed size
-HOpens(k, c, m, w) == c = HCom(k, m, w)
-KeyOf(scheme, stream) == <<scheme, stream>>   \* ExtractCommitmentKey: the transcript output it is hashed from
-
 --------------------------------------------------------------------------------
 VARIABLES g, lam,      \* the trapdoor key
           slots,       \* sequence of [c, m, w]: commitment and the promised opening
@@ -99,5 +79,12 @@ EquivExported == \A i \in 1..Len(slots) : \A m2 \in F :
 HashBinding == \A k1, k2 \in 0..1, m1, m2 \in 0..1, w1, w2 \in 0..1 :
                   HOpens(k2, HCom(k1, m1, w1), m2, w2) <=> <<k1, m1, w1>> = <<k2, m2, w2>>
 
-ExportOK == Export => PrintT(ToJson(prog))
+\* the encryption-based commitment is perfectly binding: with the key a = lam and any ciphertext <<r, mu + a*r>>
+\* no other (message, nonce) opens it; changing the key alone opens iff r = 0 (guard, 1/Q)
+ElGamalBinding == \A i \in 1..Len(slots) : LET c == ECom(lam, slots[i].m, slots[i].w) IN
+                    /\ \A m2, r2 \in F : EOpens(lam, c, m2, r2) <=> (m2 = slots[i].m /\ r2 = slots[i].w)
+                    /\ \A d \in F \ {0} : Add(lam, d) # 0 => (EOpens(Add(lam, d), c, slots[i].m, slots[i].w) <=> slots[i].w = 0)
+
+\* only maximal programmes are printed: the replay checks every slot, so prefixes are covered
+ExportOK == Export /\ Len(prog.steps) = MaxSteps => PrintT(ToJson(prog))
 ================================================================================
